@@ -43,6 +43,7 @@ LimNone == {<<NoLim, NoLim>>}
 LimSmall == {<<1, 1>>, <<0, 1>>, <<1, 0>>}
 LimMixed == {<<NoLim, NoLim>>, <<1, 1>>, <<2, 1>>, <<0, NoLim>>}
 LimTwo == {<<2, 2>>, <<1, 2>>}
+LimLeak == {<<2, 1>>}
 Disc == [k |-> "disc", pri |-> None, sec |-> None, dial |-> None]
 
 Init ==
@@ -115,7 +116,7 @@ DialBody(p, stim, swallow) ==
        /\ Handle(stim, <<>>,
                  IF swallow /\ "hdial-refused-silently" \in Fixed
                    THEN <<[k |-> "proto_dial_failure", peer |-> p, cid |-> -1, addrs |-> <<>>]>> ELSE <<>>,
-                 IF swallow THEN "ok" ELSE "err")
+                 IF swallow THEN "ok" ELSE "limit")
   ELSE IF ps[p].k = "conn" THEN
        /\ UNCHANGED <<mvars, kf>> /\ Handle(stim, <<>>, <<>>, IF swallow THEN "ok" ELSE "err")
   ELSE IF InProgress(p) THEN
@@ -147,7 +148,7 @@ HDial(p) ==
 
 UDialAddr(p, a) ==
   LET stim == [a |-> "dial_addr", p |-> p, addr |-> a] IN
-  IF Full(limOut, MaxOut) THEN UNCHANGED <<mvars, kf>> /\ Handle(stim, <<>>, <<>>, "err")
+  IF Full(limOut, MaxOut) THEN UNCHANGED <<mvars, kf>> /\ Handle(stim, <<>>, <<>>, "limit")
   ELSE /\ next < MaxCid
        /\ next' = next + 1            \* the connection id is allocated before the state check
        /\ known' = [known EXCEPT ![p] = @ \cup {a}]
@@ -186,17 +187,19 @@ TDialFail(c) ==
 EstBody(c, p, dir, stim) ==
   LET pend1 == pend \ {c} IN
   IF (dir = "in" /\ Full(limIn, MaxIn)) \/ (dir = "out" /\ Full(limOut, MaxOut)) THEN
-       \* can_accept_connection failed -> Reject; the peer state is left as it is
+       \* can_accept_connection failed -> Reject. For an outbound connection this concludes the dial:
+       \* the dial record is cleared (on_dial_failure) and, unless the peer is connected anyway,
+       \* the protocols are told DialFailure; the application still gets no report (known finding).
+       LET own == dir = "out" /\ ps[p].dial = c
+           st2 == IF dir = "out" THEN OnDialFailure(ps[p], c) ELSE ps[p] IN
        /\ pend' = pend1
        /\ tx' = [tx EXCEPT ![c] = "rejected"]
-       /\ kf' = IF dir = "out" /\ ps[p].dial = c /\ "outbound-established-rejected-by-limit" \notin Fixed
-                  THEN kf \cup {"outbound-established-rejected-by-limit"} ELSE kf
-       /\ ps' = IF dir = "out" /\ ps[p].dial = c /\ "outbound-established-rejected-by-limit" \in Fixed
-                  THEN [ps EXCEPT ![p] = OnDialFailure(@, c)] ELSE ps
+       /\ kf' = IF own THEN kf \cup {"outbound-established-rejected-by-limit"} ELSE kf
+       /\ ps' = [ps EXCEPT ![p] = st2]
        /\ UNCHANGED <<cpeer, cdir, caddrs, limIn, limOut, next, known>>
        /\ Handle(stim, <<[c |-> "reject", cid |-> c]>>,
-                 IF dir = "out" /\ ps[p].dial = c /\ "outbound-established-rejected-by-limit" \in Fixed
-                   THEN <<[k |-> "dial_failure", cid |-> c, addrs |-> caddrs[c]]>> ELSE <<>>, "none")
+                 IF dir = "out" /\ st2.k # "conn"
+                   THEN <<[k |-> "proto_dial_failure", peer |-> p, cid |-> -1, addrs |-> caddrs[c]]>> ELSE <<>>, "none")
   ELSE LET r == OnEst(ps[p], c) IN
        IF r.acc THEN
             /\ ps' = [ps EXCEPT ![p] = r.st]
@@ -334,9 +337,9 @@ MonOK == kf = {} => mon.bad = ""
 \* C05: no silence at quiescence
 QuiesceOK == (kf = {} /\ Quiescent) => MonQuiesce(mon).bad = ""
 \* C05: no wedge - once everything concluded a peer without connection is plainly disconnected
-WedgeFree == (kf = {} /\ Quiescent) => \A p \in Peers : Live(p) = {} => ps[p] = Disc
+WedgeFree == (kf \subseteq {"outbound-established-rejected-by-limit"} /\ Quiescent) => \A p \in Peers : Live(p) = {} => ps[p] = Disc
 \* pending_connections holds exactly the outstanding outbound attempts
-PendingExact == (kf = {} /\ Quiescent) => pend = {}
+PendingExact == (kf \subseteq {"outbound-established-rejected-by-limit"} /\ Quiescent) => pend = {}
 \* C06 on the model state
 CapsOK == /\ (MaxIn # NoLimit => Cardinality(limIn) <= MaxIn)
           /\ (MaxOut # NoLimit => Cardinality(limOut) <= MaxOut)
